@@ -320,7 +320,14 @@ func genOptCase0(r *rng) optCase {
 		return s
 	}
 	out := [][]string{{}, {"--json"}, {"-j"}, {"--json", "--json-version=2"}, {"--json", "--json-version=1"}}[r.n(5)]
-	which := r.n(18)
+	which := r.n(19)
+	if which == 18 {
+		// a ROOT must name exactly ONE object: revision-range and multi-revision syntax is rejected even when it
+		// happens to expand to a single line (`X^!` of a root commit, `X^@` of a one-parent commit: seeded C10m)
+		bad := [][]string{{"refs/heads/side^!"}, {"refs/heads/main^@"}, {"refs/heads/side..refs/heads/main"}, {"^refs/heads/main"},
+			{"refs/heads/side^!", "refs/heads/main"}, {"refs/heads/main^-"}, {"refs/heads/side^@"}, {"refs/tags/v1^!"}}[r.n(8)]
+		return optCase{argsA: append(bad, out...), argsB: out, expect: "failA"}
+	}
 	if which >= 16 { // the progress family: its effect shows on stderr only
 		truthy := map[string]bool{"true": true, "yes": true, "on": true, "1": true}
 		if r.coin(1, 5) {
@@ -435,10 +442,7 @@ func genOptCase0(r *rng) optCase {
 		case 3:
 			return optCase{argsA: []string{"--json", "--json-version=3"}, argsB: []string{"--json"}, expect: "failA"}
 		default:
-			// a ROOT must name exactly ONE object: revision-range and multi-revision syntax is rejected even when it
-			// happens to expand to a single line (`X^!` of a root commit, `X^@` of a one-parent commit: seeded C10m)
-			bad := [][]string{{"--threshold=abc"}, {"--names=bogus"}, {"--include", "/(/"}, {"--include", "@nosuchgroup"}, {"--no-such-option"}, {"--branches=maybe"}, {"nosuchroot"},
-				{"refs/heads/side^!"}, {"refs/heads/main^@"}, {"refs/heads/side..refs/heads/main"}, {"^refs/heads/main"}, {"refs/heads/side^!", "refs/heads/main"}, {"refs/heads/main^-"}}[r.n(13)]
+			bad := [][]string{{"--threshold=abc"}, {"--names=bogus"}, {"--include", "/(/"}, {"--include", "@nosuchgroup"}, {"--no-such-option"}, {"--branches=maybe"}, {"nosuchroot"}}[r.n(7)]
 			return optCase{argsA: bad, argsB: out, expect: "failA"}
 		}
 	}
@@ -587,6 +591,11 @@ func init() {
 				}
 				os.MkdirAll(filepath.Join(rr.dir, "info"), 0o755)
 				os.WriteFile(filepath.Join(rr.dir, "info", "grafts"), b.Bytes(), 0o644)
+			}
+			if in[3] != "-" && len(objs)%2 == 1 {
+				// a pack with a reachability bitmap written WHILE the graft file was in effect: the bitmap has the
+				// grafted edges baked in (seeded change C13m listed objects with --use-bitmap-index under --names=none)
+				runCmd(w, gitEnv(), nil, "git", "--git-dir", rr.dir, "repack", "-adbq")
 			}
 			os.MkdirAll(filepath.Join(w, "sub", "dir"), 0o755)
 			if len(objs)%2 == 0 {
@@ -779,6 +788,18 @@ func init() {
 			defer rr.cleanup()
 			w := filepath.Dir(rr.dir)
 			os.WriteFile(filepath.Join(w, "untracked.txt"), []byte("work tree file\n"), 0o644)
+			if len(objs)%3 == 0 {
+				// eight sibling refgroups defined in the repository's gitconfig, each matching every reference: their
+				// rows appear in the order of first mention, on every run (seeded change C17m collected them in a map)
+				var b strings.Builder
+				for k := 0; k < 8; k++ {
+					fmt.Fprintf(&b, "[refgroup \"team-%c\"]\n\tinclude = refs/\n", "hcafdbge"[k])
+				}
+				if f, err := os.OpenFile(filepath.Join(rr.dir, "config"), os.O_APPEND|os.O_WRONLY, 0o644); err == nil {
+					f.WriteString(b.String())
+					f.Close()
+				}
+			}
 			var fmtArgs []string
 			switch in[6] {
 			case "json1":
